@@ -347,7 +347,10 @@ class Evaluator:
                         cands.append((fi, ops[:j] + ops[j + 1:]))
             if not cands:
                 break
-            cands = cands[:400]
+            # the entry function (and what it calls) is what matters: try it first
+            entry = int(cur.entries[0]) if cur.entries else len(cur.funcs) - 1
+            cands.sort(key=lambda c_: (c_[0] != entry, -c_[0]))
+            cands = cands[:500]
             lines = []
             for fi, ops in cands:
                 p = Prog(cur.line())
@@ -432,6 +435,8 @@ def report(ctx, ev, case, findings, budget):
     bad = [f for f in findings if f["kind"] in ("violation", "tie")]
     if not bad:
         return
+    # the property itself (layer iii) first, a broken tie second
+    bad.sort(key=lambda x: x["kind"] != "violation")
     f = bad[0]
     line = case["prog"]
     if budget[0] > 0 and f["kind"] in ("violation", "tie") and f.get("cfg", "-") != "-":
